@@ -49,3 +49,42 @@ def inject(seed: int | None, scale: float = 0.004):
     finally:
         for cls, name, original in patched:
             setattr(cls, name, original)
+
+
+@contextlib.contextmanager
+def hash_yield(seed: int = 0):
+    """Make every hash-object update of sedpack.io.utils yield the processor first (values unchanged).
+
+    A digest computed from a buffer that another thread may overwrite between `readinto` and `update`
+    becomes observable; correct code (private buffer per call) is unaffected."""
+    import sedpack.io.utils as utils
+    original = getattr(utils, "_get_hash_function", None)
+    stats = {"yields": 0}
+    if original is None:
+        yield stats
+        return
+    rng = random.Random(seed)
+    lock = threading.Lock()
+
+    class Proxy:
+        def __init__(self, inner):
+            self._inner = inner
+
+        def update(self, data):
+            with lock:
+                stats["yields"] += 1
+                nap = rng.random() * 0.002
+            time.sleep(nap)
+            return self._inner.update(data)
+
+        def __getattr__(self, name):
+            return getattr(self._inner, name)
+
+    def patched(name):
+        return Proxy(original(name))
+
+    utils._get_hash_function = patched
+    try:
+        yield stats
+    finally:
+        utils._get_hash_function = original
